@@ -936,7 +936,21 @@ func (x *Exec) sliceOp(fr *Frame, st *State, in *ssa.Slice) Val {
 		x.oblige(st, "SAFE", "slice-bounds("+x.posText(in.Pos())+")", g, "slice bounds out of range")
 		st.assume(g)
 		r := x.subSlice(st, in.Type(), u, xs.T, lo, hi, cp)
-		return Val{T: x.nameTerm(st, "sl", r), Typ: in.Type(), Src: nil}
+		rv := Val{T: x.nameTerm(st, "sl", r), Typ: in.Type(), Src: nil}
+		if strings.HasPrefix(xs.Org, "param:") {
+			// a view of a caller's buffer: remember how far the caller's own view reaches, so that an
+			// append onto a shorter view is known to write into bytes the caller still sees
+			// (spec builtin untouched(p))
+			rv.Org = xs.Org
+			reach := xs.ShrLen
+			if reach.IsZero() {
+				reach = sliceLen(xs.T)
+			}
+			if !(in.Max != nil && in.High != nil && x.value(fr, st, in.Max).T.S == hi.S) {
+				rv.ShrLen = Sub(reach, lo)
+			}
+		}
+		return rv
 	case *types.Pointer: // *array
 		at := u.Elem().Underlying().(*types.Array)
 		if in.High != nil {
